@@ -75,6 +75,22 @@ def counter_boundary_case(rng):
             "weights": weights, "ignore_missing": bool(rng.random() < 0.5), "boundary_m": m, "boundary_kind": which}
 
 
+def many_cells_case(rng):
+    """A cube of more than 1024 cells (where per-cell loops may switch strategy), with rows in cell 0."""
+    exts = gen.pick(rng, [(40, 30), (33, 33), (1100,), (257, 5), (11, 10, 10)])
+    n = int(gen.pick(rng, [40, 200, 600]))
+    dense = []
+    for e in exts:
+        a = rng.integers(0, e, size=n).astype(numpy.int64)
+        a[: max(2, n // 20)] = 0                      # several rows in cell (0, ..., 0)
+        a[-1] = e - 1
+        dense.append(a)
+    commons = [int(rng.integers(0, e)) for e in exts]
+    c = {"dense": dense, "commons": commons, "shape": tuple(exts), "extents": list(exts), "n": n, "many_cells": True}
+    c.update(agg_inputs(rng, n, k=gen.pick(rng, [2, 3, None])))
+    return c
+
+
 def ref_parts(case):
     n = case["n"]
     fact = gen.fact_parts(case["fact"])
@@ -102,13 +118,21 @@ def tolerance(case, agg):
     return tol
 
 
-def call(cube, agg, case, rma):
-    """Run one shared aggregate on a ccube or xcube with fresh argument objects."""
-    w = gen.weight_arg(case["weights"])
+def call(cube, agg, case, rma, shared=None):
+    """Run one shared aggregate on a ccube or xcube.  Argument objects are fresh copies unless
+    `shared` (a dict filled on first use) is given: then every call receives the SAME objects, as a
+    caller who keeps its arrays around would pass them."""
+    if shared is not None:
+        if "w" not in shared:
+            shared["w"] = gen.weight_arg(case["weights"])
+            shared["f"] = gen.fact_arg(case["fact"])
+        w, f = shared["w"], shared["f"]
+    else:
+        w = gen.weight_arg(case["weights"])
+        f = gen.fact_arg(case["fact"])
     ig = case["ignore_missing"]
     if agg == "count":
         return cube.count(weights=w, N=case["n"] if not cube.dims else None, ignore_missing=ig, return_missing_as=rma)
-    f = gen.fact_arg(case["fact"])
     return getattr(cube, agg)(f, weights=w, ignore_missing=ig, return_missing_as=rma)
 
 
